@@ -18,6 +18,8 @@ import (
 	"cosmossdk.io/math"
 	sdk "github.com/cosmos/cosmos-sdk/types"
 
+	"github.com/noble-assets/orbiter/v2/types/core"
+
 	"verif/harness/internal/cq"
 	"verif/harness/internal/rng"
 	"verif/harness/internal/sim"
@@ -40,13 +42,17 @@ func World(prop string, r *rng.R, n int) Result {
 			"reaches the dispatch stage or a message changes state; distinct by the rendered operation list",
 		Notes: map[string]any{}}
 	var extra []world.ExtraAction
-	if prop == "C06" {
+	withSwap := prop == "C06" || prop == "C12"
+	if withSwap {
+		// a denomination-changing action controller exists only on the instrumented instance
 		extra = append(extra, newSwap)
 		res.Evaluator, res.InputType = "run_world_swap", "((list nat * string) * world_case)"
 	}
 	wr, err := newWorldRunner(extra...)
-	if err == nil && prop == "C06" {
-		wr.w.InstOnly = true
+	if err == nil && withSwap {
+		wr.swap = true
+		// C06: every packet on the instrumented instance; C12: only those naming the swap action
+		wr.w.InstOnly = prop == "C06"
 	}
 	if err != nil {
 		res.Failures = append(res.Failures, Failure{What: "cannot boot the application: " + err.Error(), Sig: "boot", Case: map[string]any{}})
@@ -180,6 +186,16 @@ func (wr *worldRunner) runCase(prop string, p profile, r *rng.R, stats map[strin
 				}
 			}
 			op := world.Op{Kind: "recv", Pkt: pkt, Twin: prop == "C11", Ref: prop == "C07"}
+			if wr.swap && pkt.ICS != nil {
+				// a payload naming the swap action can only run where that controller exists
+				if pl, err := wr.w.Parse(pkt.ICS.Memo); err == nil && pl != nil {
+					for _, a := range pl.PreActions {
+						if a != nil && a.Id == core.ACTION_SWAP {
+							op.InstOnly = true
+						}
+					}
+				}
+			}
 			if r.Chance(p.pCallback) && pkt.ICS != nil {
 				// a packet Noble sent earlier: its acknowledgement or timeout comes back
 				op.Callback = rng.Pick(r, []string{"ack-ok", "ack-err", "timeout"})
@@ -207,7 +223,13 @@ func (wr *worldRunner) runCase(prop string, p profile, r *rng.R, stats map[strin
 			ops = append(ops, planned{op, pktInfo{shape: "msg/" + m.Kind}})
 		case x < p.wRecv+p.wMsg+p.wDeposit:
 			to := rng.Pick(r, []sdk.AccAddress{sim.OrbiterAddr(), sim.OrbiterAddr(), sim.OrbiterAddr(), wr.a.users[0].Raw})
-			op := world.Op{Kind: "deposit", To: to, Denom: rng.Pick(r, wr.w.Denoms), Amount: big.NewInt(int64(1 + r.Intn(1000)))}
+			amt := big.NewInt(int64(1 + r.Intn(1000)))
+			if r.Chance(p.pHuge) {
+				// anybody may send any amount: the 64-bit and 128-bit boundaries and beyond
+				amt = rng.Pick(r, []*big.Int{new(big.Int).Sub(new(big.Int).Lsh(big.NewInt(1), 63), big.NewInt(1)), new(big.Int).Lsh(big.NewInt(1), 63),
+					new(big.Int).Add(new(big.Int).Lsh(big.NewInt(1), 64), big.NewInt(5)), new(big.Int).Lsh(big.NewInt(1), 128), new(big.Int).Lsh(big.NewInt(1), 200)})
+			}
+			op := world.Op{Kind: "deposit", To: to, Denom: rng.Pick(r, wr.w.Denoms), Amount: amt}
 			ops = append(ops, planned{op, pktInfo{shape: "deposit"}})
 		default:
 			op := world.Op{Kind: "query", Q: g.genQuery()}
@@ -321,7 +343,7 @@ func (wr *worldRunner) runCase(prop string, p profile, r *rng.R, stats map[strin
 		}
 	}
 	input := "(" + maskCoq(p.mask) + ", " + wr.coqHeader(before, strsB, strsI, opTerms, before.State) + ")"
-	if wr.w.InstOnly {
+	if wr.swap {
 		input = "((" + maskCoq(p.mask) + ", " + cq.Str(world.Hex(PoolAddr())) + "), " + wr.coqHeader(before, strsB, strsI, opTerms, before.State) + ")"
 	}
 	desc := map[string]any{"ops": descOps}
@@ -484,6 +506,8 @@ func (o *oracle) check(op world.Op, info pktInfo, obs world.OpObs) []Failure {
 		}
 		if obs.Recv.Class == world.ClassPanic {
 			fs = append(fs, o.fail("recv-panic", "the receive path panics: "+obs.Recv.Panic, desc))
+			// a panic that an emptied orbiter account avoids is also C11's: coins sent to the account block the transfer
+			fs = append(fs, o.checkPrior(op, info, obs, desc)...)
 			return fs
 		}
 		// C01: success never leaves more on the orbiter account; an orbiter packet leaves nothing of the credited denom
@@ -888,8 +912,17 @@ func (o *oracle) checkState(op world.Op, info pktInfo, obs world.OpObs, desc str
 				o.amounts[k] = [2]*big.Int{new(big.Int).Add(cur[0], in), new(big.Int).Add(cur[1], ou)}
 			}
 			finalDenom := info.denom
-			if info.spec != nil && info.spec.swap && !info.spec.swapTwice {
-				finalDenom, _ = otherDenom(info.denom)
+			if info.spec != nil {
+				// a successful transfer carries at most one swap action (repeated identifiers do not validate)
+				swaps := info.spec.swap
+				for _, x := range info.spec.extra {
+					if x.id == int32(core.ACTION_SWAP) {
+						swaps = true
+					}
+				}
+				if swaps && !info.spec.swapTwice {
+					finalDenom, _ = otherDenom(info.denom)
+				}
 			}
 			if finalDenom == info.denom {
 				add(info.denom, info.amount, out)
@@ -1205,6 +1238,9 @@ func (o *oracle) checkOrder(op world.Op, info pktInfo, obs world.OpObs, desc str
 			d2, _ := otherDenom(denom)
 			out := new(big.Int).Add(amt, big.NewInt(1))
 			out.Div(out, big.NewInt(2))
+			if new(big.Int).Mod(amt, big.NewInt(3)).Sign() == 0 {
+				out = new(big.Int).Set(amt) // at par
+			}
 			want = append(want, fmt.Sprintf("%s>%s %s%s", orb, pool, amt, denom), fmt.Sprintf("%s>%s %s%s", pool, orb, out, d2))
 			denom, amt = d2, out
 			continue
